@@ -746,6 +746,12 @@ def run(ctx):
         tally[kk] = tally.get(kk, 0) + 1
     if tally:
         ctx.notes.append('violations by family/clause/finding key: ' + json.dumps(tally, sort_keys=True))
+    for v in ctx.violations:
+        if v['finding_key'] is None:
+            ctx.notes.append('violation without finding key: %s %s %s' % ((v['case'] or {}).get('clause'), v['what'][:160],
+                                                                          json.dumps({k_: (v['case'] or {}).get(k_) for k_ in ('group', 'family', 'cfg', 'callback_fault', 'differences')})[:1500]))
+    for d in ctx.disagreements:
+        ctx.notes.append('disagreement: %s' % json.dumps({k_: (d['case'] or {}).get(k_) for k_ in ('group', 'family', 'cfg', 'callback_fault', 'observed')})[:2500])
     for gi in list(built)[:4]:
         ctx.sample(summarise(groups[gi], built[gi][0]))
 
